@@ -764,7 +764,9 @@ impl Gen {
     }
     fn template(&mut self, depth: u32) -> Ex {
         // (template, number of values it designates) per placeholder style
-        let q: &[(&str, usize)] = &[("? + ?", 2), ("f(?, ?, ?)", 3), ("a[?]", 1), ("'??' = ?", 1), ("?? ?", 1), ("x = ? AND 'q?' <> ?", 2), ("?", 1), ("\"id?\" = ?", 1), ("m[idx[1]] = ?", 1), ("ARRAY[[1,2],[3,4]] @> ? AND s < ?", 2)];
+        let q: &[(&str, usize)] = &[("? + ?", 2), ("f(?, ?, ?)", 3), ("a[?]", 1), ("'??' = ?", 1), ("?? ?", 1), ("x = ? AND 'q?' <> ?", 2), ("?", 1), ("\"id?\" = ?", 1), ("m[idx[1]] = ?", 1), ("ARRAY[[1,2],[3,4]] @> ? AND s < ?", 2),
+            // a positional mark with a word glued to it is still a mark followed by that word
+            ("x BETWEEN ?AND ?", 2), ("d + INTERVAL ?DAY", 1), ("?x", 1)];
         let d: &[(&str, usize)] = &[("$1 + $2", 2), ("$2 || $1", 2), ("f($1, $1)", 1), ("$ + $", 2), ("'$1' = $1", 1), ("$$ $1", 1), ("a[$1]", 1), ("$1", 1), ("$3, $1", 3), ("ARRAY[[1,2],[3,4]] @> $1 AND s < $2", 2), ("lookup[pos[1]] = $2 AND tag = $1", 2), ("x = $ AND y = $2", 2)];
         // tame: templates whose literal text is closed in this dialect (`[` opens an identifier in SQLite;
         // `??` / `$$` are by design a bare mark in the output)
